@@ -203,7 +203,8 @@ class Pipe(BranchWInternalsComponent):
             int_p_lookup = net["_lookups"]["internal_nodes"][cls.table_name()]
             int_v_lookup = net["_lookups"]["internal_branches"][cls.table_name()]
 
-            pipe_lookup_index = get_lookup(net, 'branch', 'index')['pipe'][pipe]
+            # position of the pipes within the pipe table (the index lookup refers to the branch pit)
+            pipe_lookup_index = get_lookup(net, 'branch', 'index')['pipe'][pipe] - f
 
             p_nodes = int_p_lookup[pipe_lookup_index]
             p_nodes = [np.arange(x, y + 1) for x,y in zip(p_nodes[:, 0], p_nodes[:, 1])]
